@@ -9,4 +9,22 @@ CHECKS = {
         design_ref="DESIGN.md §4 C01",
         note="Trusts lxml/libxml2 as XML arbiter and the abstract-form generator's coverage (label histogram in evidence). Containers other than dict are covered by C12.",
     ),
+    "C02": dict(
+        technique="property-based testing with a validity-predicate oracle over the parsed output (static path resolution of every nodeset/ref against the primary instance) plus name-collision mutations",
+        text="Generated-input search over random forms with many generated helper nodes and a 25% share of deliberately colliding names; every bind/control/repeat/action path must resolve to exactly one instance node, siblings unique, no node bound twice, no two controls per ref, template copies shaped like live copies; colliding forms must be rejected or still unambiguous.",
+        design_ref="DESIGN.md §4 C02",
+        note="Static resolution of the path shapes pyxform emits (/a/b, /a/b/@x); templates removed before resolving.",
+    ),
+    "C15": dict(
+        technique="property-based differential testing: pretty_print=True vs False outputs compared as canonical trees (character-exact text in any element with non-blank text)",
+        text="Generated-input search; each form is converted in both modes and the two documents must be the same tree with identical attributes, namespaces and text (whitespace-only text ignored only between elements).",
+        design_ref="DESIGN.md §4 C15",
+        note="Both outputs parsed by libxml2; generator weighted to mixed text/output content and significant spaces.",
+    ),
+    "C16": dict(
+        technique="property-based round-trip testing (workbook JSON and survey.to_json_dict dumps through json.dumps/loads and the builder) with XForm equality and dump-stability oracles",
+        text="Generated-input search; four round-trip clauses per accepted form. Differences are classified by what differs (attribute, element, text) so each root cause is its own bucket.",
+        design_ref="DESIGN.md §4 C16",
+        note="Uses pyxform's public builder/to_json_dict/workbook_to_json entry points; two genuine defects found here were fixed in /repo (see known_findings.json).",
+    ),
 }
